@@ -95,6 +95,24 @@ def run(ctx):
             ctx.violate('the same source and options produced different assembly in different processes / hash seeds / repetitions', cls='nondeterminism',
                         source=item[0], w=item[1], stack=item[2], unchecked=item[3], hashes=sorted(hs), seeds=seeds)
     ctx.oblige('byte-identical gen_lines() for %d programs x %d hash seeds (fresh processes) x 2 repetitions' % (len(srcs), len(seeds)), not any(v.get('cls') == 'nondeterminism' for v in ctx.violations))
+    # (a') the command-line tool in processes with different locale / encoding environments: a UTF-8 source must give the same file
+    cli_src = 'empty @is_you() { write("h\u00e9llo \u4e16\u754c \\u{1F30E} caf\u00e9"); write(\'\u00e9\' is int); }\n// \u00fcber\n'
+    cpath = os.path.join(ctx.work, 'c18_utf8.hid')
+    open(cpath, 'w', encoding='utf-8').write(cli_src)
+    envs = [{}, {'LC_ALL': 'C', 'PYTHONUTF8': '0'}, {'LC_ALL': 'C', 'PYTHONUTF8': '0', 'PYTHONCOERCECLOCALE': '0'}, {'LC_ALL': 'POSIX', 'PYTHONCOERCECLOCALE': '0'},
+            {'PYTHONUTF8': '1'}, {'LC_ALL': 'C.utf8'}, {'LANG': 'C', 'LC_CTYPE': 'C', 'PYTHONUTF8': '0', 'PYTHONIOENCODING': 'latin-1'}]
+    seen = {}
+    for k, e in enumerate(envs):
+        outp = os.path.join(ctx.work, 'c18_utf8_%d.s' % k)
+        if os.path.exists(outp):
+            os.remove(outp)
+        base = {kk: vv for kk, vv in os.environ.items() if kk not in ('LC_ALL', 'LANG', 'LC_CTYPE', 'PYTHONUTF8', 'PYTHONCOERCECLOCALE', 'PYTHONIOENCODING')}
+        p = subprocess.run(['/venv/bin/python', '-m', 'hidc', cpath, '-o', outp], cwd=REPO, env=dict(base, PYTHONPATH=REPO, **e), stdout=subprocess.PIPE, stderr=subprocess.PIPE, timeout=120)
+        seen[json.dumps(e, sort_keys=True)] = (p.returncode, hashlib.sha256(open(outp, 'rb').read()).hexdigest()[:16] if os.path.exists(outp) else None, p.stderr.decode(errors='replace')[-160:])
+    if len({(v[0], v[1]) for v in seen.values()}) != 1:
+        ctx.violate('the same UTF-8 source compiled differently (or not at all) depending on the locale / encoding environment of the process', cls='env_dependence',
+                    source=cli_src, outcomes=seen)
+    ctx.cov['evaluations'] = ctx.cov.get('evaluations', 0) + len(envs)
     # (b) larger stacks and wider words do not change completed runs; (c) lint
     units = program_units(rng, 70 if q else 800, ALL + ['tt'], [2], cfgs_per=1, seed_base=ctx.seed + 1800, stack=40)
     big = []
